@@ -161,4 +161,85 @@ theorem lookupD_touchKey (secs : Dic Section) (c key s k : Bytes) :
         | some x => simp
     · simp [hs]
 
+/-! ## the reader as a fold over line events -/
+
+/-- what a line means to a reader: nothing, "section `n` starts", "key `k` has value `v`" -/
+inductive Ev where
+  | none
+  | sec (n : Bytes)
+  | kv (k v : Bytes)
+deriving Repr, DecidableEq
+
+/-- the reader's view of a line -/
+def evR (line : Bytes) : Ev :=
+  match classifyR line with
+  | .header n => .sec n
+  | .kv rk rv => .kv (slashToBackslash (trim rk)) (trim rv)
+  | _ => .none
+
+/-- value of `s`/`k` after the events, starting in section `cur` with value `acc` -/
+def evLookup (s k : Bytes) : List Ev → Bytes → Option Bytes → Option Bytes
+  | [], _, acc => acc
+  | .sec n :: t, _, acc => evLookup s k t n acc
+  | .kv key v :: t, cur, acc => evLookup s k t cur (if cur = s ∧ key = k then some v else acc)
+  | .none :: t, cur, acc => evLookup s k t cur acc
+
+/-- current section after the events -/
+def evCur : List Ev → Bytes → Bytes
+  | [], cur => cur
+  | .sec n :: t, _ => evCur t n
+  | _ :: t, cur => evCur t cur
+
+theorem read_fold_lookup (sw : Bool) (s k : Bytes) (ls : List Bytes) (st : RState) :
+    lookup (ls.foldl (readStep sw) st).sections s k
+      = evLookup s k (ls.map evR) st.cur (lookup st.sections s k) := by
+  induction ls generalizing st with
+  | nil => simp [evLookup]
+  | cons l t ih =>
+    simp only [List.foldl_cons, List.map_cons]
+    rw [ih]
+    unfold readStep evR
+    cases h : classifyR l with
+    | skip => simp [evLookup]
+    | garbage => simp [evLookup]
+    | header n => simp [evLookup, lookup_touch]
+    | kv rk rv =>
+      simp only [evLookup, lookup_secSet]
+      congr 1
+      by_cases hc : st.cur = s
+      · subst hc
+        by_cases hk : k = slashToBackslash (trim rk)
+        · subst hk; simp
+        · have : ¬ slashToBackslash (trim rk) = k := fun e => hk e.symm
+          simp [hk, this]
+      · have : ¬ s = st.cur := fun e => hc e.symm
+        simp [hc, this]
+
+theorem lookup_initR (s k : Bytes) : lookup initR.sections s k = none := by
+  show lookup (touch [] nosection) s k = none
+  rw [lookup_touch]; rfl
+
+theorem lookup_finish (sw : Bool) (st : RState) (s k : Bytes) :
+    lookup (finish sw st).sections s k = lookup st.sections s k := by
+  unfold finish
+  by_cases h : (secOf st.sections nosection).isEmpty = true
+  · simp only [h, if_true, lookup_remove]
+    by_cases hs : s = nosection
+    · subst hs
+      simp only [if_true, lookup]
+      cases hg : dicGet? st.sections nosection with
+      | none => rfl
+      | some x =>
+        simp only [secOf, hg, Option.getD_some, List.isEmpty_iff] at h
+        subst h; simp [dicGet?]
+    · simp [hs]
+  · simp [h]
+
+/-- the dictionary an `IniFile` holds after reading the lines `ls` -/
+theorem readLines_lookup (sw : Bool) (ls : List Bytes) (s k : Bytes) :
+    lookup (readLines sw ls).sections s k = evLookup s k (ls.map evR) nosection none := by
+  unfold readLines
+  rw [lookup_finish, read_fold_lookup, lookup_initR]
+  rfl
+
 end AslProofs.Ini
